@@ -476,6 +476,15 @@ func (c *Cron) scheduleLocked(ctx *core.Context, job *CronJob, checkLimit bool) 
 
 	if job.Expression != nil {
 		job.Next = job.Expression.Next(time.Now().UTC())
+		if job.Next.IsZero() {
+			// The expression has no (further) occurrence,
+			// say "0 0 30 2 *".  The zero time would be due
+			// at once, again and again.
+			c.rem(ctx, job.Id)
+			err := fmt.Errorf("schedule '%s' has no next occurrence", job.Schedule)
+			core.Log(core.WARN|CRON, ctx, "Cron.schedule", "id", job.Id, "error", err)
+			return err
+		}
 	}
 
 	//remove existing job with the same id
